@@ -505,7 +505,20 @@ class Interp:
             cur = self.lib.getitem(base, idx)
             val = self.eval(st.value, fr)
             if isinstance(base, Arr) and isinstance(idx, Arr):
-                # fancy a[I] += v : buffered, no accumulation (numpy semantics)
+                # fancy a[I] += v : buffered, no accumulation (numpy semantics): every position that occurs in I gets
+                # old + v exactly once, however often it occurs
+                if not isinstance(val, Arr) and base.ndim == 1 and idx.ndim == 1 and idx.dtype == 'int64':
+                    self.lib._fancy_bounds(idx, base.shape[0])
+                    old, fI, n, m = base.f, idx.f, base.shape[0], idx.shape[0]
+                    t = z3.Int('t!st')
+                    op = st.op
+
+                    def newf(ix, old=old):
+                        hit = z3.Exists([t], z3.And(t >= 0, t < to_z3(m),
+                                                    to_z3(self.lib._wrap_pure(fI((t,)), n)) == to_z3(ix[0])))
+                        return ite(hit, self.binop(op, old(ix), val), old(ix))
+                    base.f = newf
+                    return
                 new = self.binop(st.op, cur, val)
                 self.lib.setitem(base, idx, new)
                 return
